@@ -2,7 +2,7 @@
   C10 — repetition counts are exact and a third occurrence is scored as a draw.
   Keys are 64-bit; "position" means "key" here (trusted base item 7).
 -/
-import Walleye.Proofs.Reports
+import Walleye.Proofs.RootCorollaries
 import Walleye.Model.UciText
 namespace Walleye
 open DrawTable
@@ -103,6 +103,23 @@ theorem repeated_child_is_draw (fuel : Nat) (c : P) (d ply : Nat) (a b : Int) (n
     unfold isThreefold; rw [ht'.1]; simpa using hrep
   simp only [this, if_true]
   rfl
+
+/-- `root_score_nonneg` for iterations 1–3 with a clock that does not expire: if some root move leads
+    to a position that has already occurred at least twice, the iteration ends with a score ≥ 0
+    (every game with bounded evaluation, every permuting oracle) -/
+theorem root_score_nonneg_upto3 (E : Nat) (hg : GameOK g E) (hord : OrdPerm ord) (fuel curDepth : Nat) (first : P)
+    (t : DrawTable) (hcd : curDepth - 1 < 3) (hE : (E : Int) + 1 + (fuel + 1) < Gen.mateScore) (l : List P)
+    (best : Option P) (m : P) (hm : m ∈ l) (hrep : t.isThreefold (g.key m) = true) :
+    Triple (St t) (rootLoop g ord (fuel + 1) curDepth first l (-Gen.posInf) best)
+      (fun r _ => ∃ A B, r = some (A, B) ∧ 0 ≤ A) := by
+  refine ⟨?_⟩
+  intro s r s' hst he
+  obtain ⟨_, A, B, hr, hA, _, _⟩ := (rootLoop_triple g ord E hg hord (fuel + 1) curDepth first t hcd hE l (-Gen.posInf) best
+    (Int.le_refl _) (by decide)).run s r s' hst he
+  refine ⟨A, B, hr, ?_⟩
+  have h0 := maxNeg_mem (Spec.negamax g (fuel + 1) (curDepth - 1) 1 t) l (-Gen.posInf) m hm
+  rw [negamax_repeated g fuel (curDepth - 1) 1 t m hrep] at h0
+  omega
 
 /-- the fix of 4553a5f: also a FOURTH, fifth … occurrence is a draw (`>= 2`, not `== 2`) -/
 example : DrawTable.isThreefold [(7, 5)] 7 = true := by decide
